@@ -395,6 +395,15 @@ func ruleSignalTable(c *core.Ctx) {
 			}
 			c.Check(own, rule, key, call.Pos(), "a refused registration removes the handler it created",
 				"addSignalUser removes a connection handler that is not the one this call created (the handler of the subscriber already registered under that id): its closer unregisters that subscriber, so a client registering an id already in use cancels another client's subscription")
+			if !own {
+				continue
+			}
+			// D28: removing the handler runs its closer.  The closer of the handler created
+			// for a request that is then refused must not unregister anybody: the user it
+			// would find under that id on that connection is the one already registered.
+			bad := refusedCloserUnregisters(c, f, call, made, rm)
+			c.Check(bad == "", rule, key+"/closer", call.Pos(), "the closer of the handler dropped here does not unregister on the refused path",
+				"a client that registers an id it already holds is answered with an error and silently loses its first subscription: "+bad)
 		}
 	}
 }
@@ -1130,4 +1139,156 @@ func ruleNoStaleElementPointerInBus(c *core.Ctx, rule string) {
 		}
 	}
 	ruleNoStaleElementPointer(c, rule, fns)
+}
+
+// refusedCloserUnregisters: rmCall (in f) removes a handler made by one of
+// `made` (MakeHandler calls of the same unit).  The closer given to that
+// MakeHandler reaches the unregistering function rm only across a test of a
+// captured flag, and every path to rmCall gives that flag the value on which
+// the closer does nothing.  Returns "" or what is wrong.
+func refusedCloserUnregisters(c *core.Ctx, f *ssa.Function, rmCall ssa.CallInstruction, made []ssa.Value, rm *ssa.Function) string {
+	if rm == nil {
+		return ""
+	}
+	for _, m := range made {
+		mk, ok := m.(*ssa.Call)
+		if !ok {
+			continue
+		}
+		margs, isMk := epCall(c, mk, "MakeHandler")
+		if !isMk || len(margs) < 3 {
+			continue
+		}
+		mc, ok := core.Canon(margs[2]).(*ssa.MakeClosure)
+		if !ok {
+			if core.IsNilConst(core.Canon(margs[2])) {
+				continue
+			}
+			if fn, isFn := core.Canon(margs[2]).(*ssa.Function); isFn {
+				// a plain function: cannot tell a refused registration from an accepted one
+				if reachesCallee(fn, rm) {
+					return "the closer " + fn.Name() + " always unregisters"
+				}
+				continue
+			}
+			return "the closer of the handler is not a function literal built here"
+		}
+		cl, _ := mc.Fn.(*ssa.Function)
+		if cl == nil {
+			continue
+		}
+		for _, g := range core.AnonFuncs(cl) {
+			for _, call := range core.Calls(g) {
+				if callee := call.Common().StaticCallee(); callee == nil || (callee != rm && !forwardsTo(callee, rm)) {
+					continue
+				}
+				if g != cl {
+					return "the closer unregisters from a nested function"
+				}
+				in := call.(ssa.Instruction)
+				var flag *ssa.FreeVar
+				isFlag := func(v ssa.Value) bool {
+					u, ok := core.Canon(v).(*ssa.UnOp)
+					if !ok || u.Op != token.MUL {
+						return false
+					}
+					fv, ok := u.X.(*ssa.FreeVar)
+					if !ok {
+						return false
+					}
+					if b, isB := fv.Type().(*types.Pointer).Elem().Underlying().(*types.Basic); !isB || b.Kind() != types.Bool {
+						return false
+					}
+					if flag == nil || flag == fv {
+						flag = fv
+						return true
+					}
+					return false
+				}
+				want := true // the value of the flag on which the closer does nothing
+				if !core.Guarded(cl, in, core.IsFalse(isFlag)) {
+					flag = nil
+					want = false
+					if !core.Guarded(cl, in, core.IsTrue(isFlag)) {
+						return "the closer unregisters the user of that id unconditionally (" + c.Pos(call.Pos()) + ")"
+					}
+				}
+				if flag == nil {
+					return "the closer unregisters the user of that id unconditionally (" + c.Pos(call.Pos()) + ")"
+				}
+				cell := core.FreeVarBinding(flag)
+				if cell == nil {
+					return "the flag tested by the closer cannot be traced to a variable of " + f.Name()
+				}
+				if cell.Parent() != f {
+					return "the flag tested by the closer is not a variable of the function that drops the handler"
+				}
+				setsFlag := func(i ssa.Instruction) bool {
+					st, ok := i.(*ssa.Store)
+					if !ok || st.Addr != cell {
+						return false
+					}
+					b, isK := core.ConstBool(st.Val)
+					return isK && b == want
+				}
+				if !core.MustPassBefore(f, rmCall.(ssa.Instruction), setsFlag) {
+					return "the flag the closer tests is not set on every path to the removal of the refused handler"
+				}
+				// and nothing gives it the other value between that and the removal
+				for _, r := range core.Referrers(cell) {
+					st, ok := r.(*ssa.Store)
+					if !ok || st.Addr != cell {
+						continue
+					}
+					if b, isK := core.ConstBool(st.Val); isK && b == want {
+						continue
+					}
+					if core.Dominates(st, rmCall.(ssa.Instruction)) {
+						// the initial value, stored before the flag can be set
+						ok := false
+						for _, r2 := range core.Referrers(cell) {
+							if s2, is2 := r2.(*ssa.Store); is2 && setsFlag(s2) && core.Dominates(st, s2) {
+								ok = true
+							}
+						}
+						if ok {
+							continue
+						}
+					}
+					if core.CanReach(st, func(i ssa.Instruction) bool { return i == rmCall.(ssa.Instruction) }) != nil {
+						return "the flag the closer tests can be reset before the refused handler is removed"
+					}
+				}
+			}
+		}
+	}
+	return ""
+}
+
+// reachesCallee: fn (or a function literal in it) calls callee statically.
+func reachesCallee(fn, callee *ssa.Function) bool {
+	for _, g := range core.AnonFuncs(fn) {
+		for _, call := range core.Calls(g) {
+			if call.Common().StaticCallee() == callee {
+				return true
+			}
+		}
+	}
+	return false
+}
+
+// forwardsTo: a one-call private function that only calls target.
+func forwardsTo(f, target *ssa.Function) bool {
+	if f == nil || len(f.Blocks) != 1 {
+		return false
+	}
+	n := 0
+	hit := false
+	for _, call := range core.Calls(f) {
+		n++
+		if call.Common().StaticCallee() == target {
+			hit = true
+		}
+	}
+	return hit && n == 1
 }
